@@ -275,6 +275,12 @@ impl MissingFieldLocationGuard {
         Self { prev }
     }
 
+    /// No fallback location for the duration of the guard (a new document starts).
+    pub(crate) fn cleared() -> Self {
+        let prev = MISSING_FIELD_FALLBACK.with(|c| c.replace(None));
+        Self { prev }
+    }
+
     /// Update the fallback location in place, reusing the existing guard's restore point.
     pub(crate) fn replace_location(&mut self, location: Location) {
         MISSING_FIELD_FALLBACK.with(|c| c.set(Some(location)));
